@@ -16,8 +16,11 @@ if props is None:
     props = claimed
 assert subprocess.run(["git", "-C", "/repo", "status", "--porcelain"], capture_output=True, text=True).stdout.strip() == "", "/repo not clean"
 rows = []
-for patch in sorted(glob.glob(os.path.join(root, "C*", "*", "patch.diff"))):
-    pid = patch.split(os.sep)[-3]; k = patch.split(os.sep)[-2]
+for patch in sorted(glob.glob(os.path.join(root, "C*", "*", "patch.diff")) + glob.glob(os.path.join(root, "C*-*", "patch.diff"))):
+    if os.path.basename(os.path.dirname(patch)).count("-"):
+        pid, k = os.path.basename(os.path.dirname(patch)).split("-", 1)
+    else:
+        pid = patch.split(os.sep)[-3]; k = patch.split(os.sep)[-2]
     if only and only != f"{pid}/{k}": continue
     title = ""
     try: title = json.load(open(os.path.join(os.path.dirname(patch), "meta.json"))).get("title", "")
